@@ -47,12 +47,13 @@ RULE = ('every tree of the universes S, S0, L-in-context, P and every integer of
         'are not counted there but in extra.mutants_* and in the outcome classes (mutation kind | reference verdict | '
         'implementation outcome)')
 BOUND = {
-    'quick': 'S: all trees <=5 nodes (mutants for <=4); S0: <=6 nodes (mutants for <=5); L in contexts of <=2 nodes '
+    'quick': 'S: all trees <=5 nodes (mutants for <=4); S0: <=6 nodes (mutants for <=4); L in contexts of <=2 nodes '
              '(big leaves: <=1); P: 159 prims x 5 arities x 3 annots; I: all ints |n|<=16700 + boundaries to 4200 bits; '
-             'tag sweeps 256 x all tails of trees <=2 nodes; injectivity dict over S, S0, L, P',
+             'tag sweeps 256 x all tails of trees <=2 nodes; injectivity dict over S<=4, S0<=6, L, P (for S=5 '
+             'injectivity follows from the round trip, which is checked on every tree)',
     'thorough': 'S: all trees <=5 nodes with all mutants; S0: <=7 nodes (mutants for <=6); L in contexts of <=3 nodes '
                 '(big leaves: <=2); P as quick; I: all ints |n|<=2^20+300 + boundaries to 4200 bits; tag sweeps 256 x '
-                'all tails of trees <=3 nodes; injectivity dict over S, S0, L, P',
+                'all tails of trees <=3 nodes; injectivity dict over S<=5, S0<=7, L, P',
 }
 ASSUMPTIONS = [
     'mc/ref/micheline.py is the Tezos binary Micheline format (selftest: Octez pack vectors, 20 mainnet scripts)',
@@ -241,19 +242,19 @@ def params(tier):
     q = tier == 'quick'
     return {
         'S': (5, 4) if q else (5, 5),          # (max nodes, max nodes with mutants)
-        'S0': (6, 5) if q else (7, 6),
+        'S0': (6, 4) if q else (7, 6),
         'ctx': (2, 1) if q else (3, 2),        # context size for small leaves, for big leaves
         'int_range': 16700 if q else 2 ** 20 + 300,
         'tails': 2 if q else 3,
-        'inj_parts': 4,
+        'inj': {'S': 4, 'S0': 6, 'parts': 2} if q else {'S': 5, 'S0': 7, 'parts': 4},   # universe of the injectivity dict
     }
 
 
 def universe(tier):
-    """Every expression of S, S0, L-in-context and P (used by the injectivity shards)."""
+    """Every expression of S, S0 (up to the injectivity bound of the tier), L-in-context and P."""
     P = params(tier)
     for alph in ('S', 'S0'):
-        for n in range(1, P[alph][0] + 1):
+        for n in range(1, P['inj'][alph] + 1):
             yield from gen(alph, n)
     leaves = full_leaves()
     for leaf in leaves:
@@ -287,7 +288,7 @@ def shards(tier, seed):
     step = max(2000, (2 * R_ + 1) // 48 + 1)
     out += [('ints', lo, min(lo + step, R_ + 1)) for lo in range(-R_, R_ + 1, step)]
     out += [('intedges', part, 8) for part in range(8)]
-    out += [('inj', part, P['inj_parts']) for part in range(P['inj_parts'])]
+    out += [('inj', part, P['inj']['parts']) for part in range(P['inj']['parts'])]
     # heaviest first so that the pool drains evenly
     weight = {'inj': 0, 'leaf': 1, 'tree': 2, 'ints': 3, 'intedges': 3, 'prims': 4, 'tagsweep': 4}
     out.sort(key=lambda s: weight[s[0]])
